@@ -956,11 +956,13 @@ impl<F: Fam> Ctx<F> {
         let eq1 = self.slots[0].map == self.slots[1].map;
         let eq2 = self.slots[1].map == self.slots[0].map;
         if !eq1 || !eq2 {
-            fail!(self, [C11], "clone-not-equal", "source == clone: {}, clone == source: {}", eq1, eq2);
+            // also C14: == must be symmetric and hold for equal contents whatever the hasher state
+            fail!(self, [C11, C14], "clone-not-equal", "source == clone: {}, clone == source: {}", eq1, eq2);
         }
         // source unchanged (identities), destination fully consistent with the adopted hasher
+        // (lookups that fail for present keys also violate C14)
         self.full_check(src, &[C11])?;
-        self.full_check(dst, &[C11])?;
+        self.full_check(dst, &[C11, C14])?;
         let spost = self.st(src);
         if spost.hook != spre.hook {
             fail!(self, [C11], "clone-changed-source", "the source's tables changed during {}: {:?} -> {:?}", self.op_name, spre.hook, spost.hook);
